@@ -1,6 +1,6 @@
 From Coq Require Import List NArith Bool.
 From V.gen Require Consts.
-From V.C16 Require Import Model Proofs Obl.
+From V.C16 Require Import Model Proofs Obl Bound.
 Import ListNotations.
 Open Scope N_scope.
 From V.C16 Require Import Properties.
@@ -54,6 +54,22 @@ Check (C16_quorum_honest :
     find_quorum q es = Some qr /\ In (OTrack q targets) outs /\ NoDup S /\
     clamp qr (N.of_nat (length targets)) <= N.of_nat (length S) /\
     (forall p, In p S -> In (q, p) (put_sends g (st0 m) es) /\ In p targets)).
+Check (C16_step_measure :
+  forall U g s e,
+  BE U g s -> ev_in_U U e -> is_input e = false ->
+  BE U g (fst (fst (step g s e))) /\ (M U g (fst (fst (step g s e))) <= M U g s)%nat /\
+  (productive s e -> (M U g (fst (fst (step g s e))) < M U g s)%nat)).
+Check (C16_stuck_idle :
+  forall s, NoDup (map fst (eng s)) -> stuck s -> idle s /\ quiescent s = true).
+Check (C16_fair_terminates :
+  forall U g m es0 es1 q,
+  1 <= g_alpha g -> fresh_ids [] (es0 ++ es1) -> cmds_ok g es0 -> evs_in_U U es0 -> evs_in_U U es1 ->
+  let s0 := fst (run g (st0 m) es0) in
+  fair_run g s0 es1 ->
+  (length es1 <= budget (length U) g es0)%nat /\
+  (stuck (fst (run g s0 es1)) ->
+   terminals q (snd (run g (st0 m) (es0 ++ es1))) = started q (es0 ++ es1) /\
+   (started q (es0 ++ es1) <= 1)%nat)).
 Check (C16_default_config :
   1 <= V.gen.Consts.PARALLELISM_FACTOR /\ 0 < V.gen.Consts.KAD_READ_TIMEOUT_SECS /\
   0 < V.gen.Consts.KAD_WRITE_TIMEOUT_SECS).
